@@ -338,7 +338,9 @@ def run_tlc():
             shutil.copy(os.path.join(here, f), scratch)
         cmd = ["tlc", "-workers", "1", "-noGenerateSpecTE", "-metadir", os.path.join(scratch, "meta"),
                "-deadlock", "-dump", "dot,actionlabels", os.path.join(scratch, "graph"), "Options.tla"]
-        out = subprocess.run(cmd, cwd=scratch, capture_output=True, text=True, timeout=600)
+        # TLC leaves an (empty) tlc-<n> directory in java.io.tmpdir on every run: keep it inside the scratch directory
+        env = dict(os.environ, JAVA_TOOL_OPTIONS=(os.environ.get("JAVA_TOOL_OPTIONS", "") + " -Djava.io.tmpdir=" + scratch).strip())
+        out = subprocess.run(cmd, cwd=scratch, capture_output=True, text=True, timeout=600, env=env)
         if "Model checking completed. No error has been found." not in out.stdout:
             raise RuntimeError("TLC did not complete cleanly:\n" + out.stdout[-2000:] + out.stderr[-500:])
         summary = re.search(r"(\d+) states generated, (\d+) distinct states found", out.stdout)
